@@ -13,8 +13,8 @@ FILES = [DS, ITY, "desolver/integrators/components/runge_kutta_methods.py", "des
          "desolver/integrators/implicit_integration_schemes.py"]
 # calls through `.rhs` that are not evaluations of the right-hand side (one reason each)
 RHS_CALL_EXEMPT = {
-    "DiffRHS.jac": "torch.func.jacrev(self.rhs, ...) builds an autodiff transform in the torch-only branch (torch is not installed here; "
-                   "autodiff Jacobian evaluations are outside nfev by construction)",
+    "torch.func.jacrev": "torch.func.jacrev(self.rhs, ...) inside class DiffRHS builds an autodiff transform in the torch-only branch (torch is not "
+                         "installed here; autodiff Jacobian evaluations are outside nfev by construction)",
 }
 
 
@@ -50,7 +50,7 @@ def who_calls(repo, run):
                     run.report("C20.1", rel, c, "the user's right-hand side is evaluated directly (not through DiffRHS.__call__): these evaluations are not counted in nfev")
             elif passes_rhs:
                 n += 1
-                ok = q in RHS_CALL_EXEMPT and "torch" in src(c)
+                ok = dotted(f) in RHS_CALL_EXEMPT and q.startswith("DiffRHS.")
                 run.judged(rid, "%s::%s hands the raw rhs to %s%s" % (rel.split("/")[-1], q, src(f), " (exempt: torch autodiff)" if ok else ""), nontrivial=not ok, ok=ok)
                 if not ok:
                     run.report("C20.1", rel, c, "the raw right-hand side is handed to `%s`: evaluations made through it bypass the counter" % src(f))
@@ -148,7 +148,23 @@ def callbacks(repo, run, m):
         run.report("C20.3", DS, cb, "callbacks run before the events of the step are handled (the step may still be rolled back)")
     # the callback list is built without reordering
     defs = [st for st in walk_no_nested(m.fn) if isinstance(st, ast.Assign) and src(st.targets[0]) == "callback"]
-    okd = all(src(st.value) in ("[]", "list(callback)", "[callback]") for st in defs) and bool(defs)
+    def as_given(v, name):
+        if isinstance(v, ast.IfExp):
+            return as_given(v.body, name) and as_given(v.orelse, name)
+        if src(v) in ("[]", "list(%s)" % name, "[%s]" % name, "list()", "[*%s]" % name):
+            return True
+        # normalisation moved into a helper method: every return of the helper is one of the forms above (in its own parameter)
+        if isinstance(v, ast.Call) and (dotted(v.func) or "").startswith("self.") and len(v.args) == 1 and src(v.args[0]) == name and not v.keywords:
+            try:
+                h = repo.get(DS, "OdeSystem." + dotted(v.func).split(".", 1)[1])
+            except (AnalysisError, KeyError):
+                return False
+            ps = [a.arg for a in h.args.args if a.arg != "self"]
+            rets = [r for r in ast.walk(h) if isinstance(r, ast.Return)]
+            stores = [x for x in ast.walk(h) if isinstance(x, (ast.Assign, ast.AugAssign, ast.For, ast.While))]
+            return len(ps) == 1 and bool(rets) and not stores and all(r.value is not None and as_given(r.value, ps[0]) for r in rets)
+        return False
+    okd = all(as_given(st.value, "callback") for st in defs) and bool(defs)
     run.judged(rid, "callback list construction: %s" % [src(st.value) for st in defs], ok=okd)
     if not okd:
         run.report("C20.3", DS, defs[0] if defs else m.fn, "the callback list is not taken as given (list(callback) / [callback] / [])", text="callback list construction")
